@@ -176,6 +176,22 @@ def run(ctx):
         check_split(sg, rep, o, ctx.seed + o["n"])
         if o["n"] == 5 and o["ts"] == [1, 4]:
             rep.sample(o, limit=3)
+    # fractions that are not exactly representable (7/10, 1/3, ...): floor(fraction * n) is evaluated by the
+    # specification on the rational and by any implementation on the nearest double.  The two readings agree except
+    # when the double product lands on the other side of an integer; those (fraction, n) pairs are skipped (counted),
+    # every other one is held to the floor rule - including the pairs where fraction * n is an integer exactly
+    from fractions import Fraction
+    import math
+    skipped = 0
+    for o in gen(rep, "split", dict(MaxN=12 if q else 21, Fracs=tlc.Raw("{<<7,10>>, <<1,3>>, <<2,3>>, <<3,10>>, <<9,20>>}"))):
+        def ambiguous(fr, n):
+            return math.floor((fr[0] / fr[1]) * n) != (Fraction(fr[0], fr[1]) * n).__floor__()
+        if ambiguous(o["ts"], o["n"]) or (o["vs"] and ambiguous(o["vs"][0], o["n"] - o["ntest"])):
+            skipped += 1
+            continue
+        rep.case("split:%d:%s:%s:%s" % (o["n"], o["ts"], o["vs"], o["shuffle"]))
+        check_split_form(sg, rep, o, ctx.seed + o["n"], "scalar")
+    rep.extra["split_pairs_skipped_as_ambiguous_in_floating_point"] = skipped
     for o in gen(rep, "onehot", dict(MaxLabLen=4 if q else 5)):
         rep.case("onehot:%s" % o["labels"])
         check_onehot(sg, rep, o)
